@@ -11,14 +11,14 @@ use iso7816::command::CommandView;
 use iso7816::Status;
 
 #[derive(Clone, Debug, PartialEq)]
-enum Exp {
+pub enum Exp {
     Err(&'static str),
     Version,
     Register,
     Authenticate(u8),
 }
 
-fn reference(cla: u8, ins: u8, p1: u8, data: &[u8]) -> Exp {
+pub fn reference(cla: u8, ins: u8, p1: u8, data: &[u8]) -> Exp {
     if cla != 0 {
         return Exp::Err("ClassNotSupported");
     }
@@ -113,7 +113,7 @@ fn frame(cla: u8, ins: u8, p1: u8, p2: u8, data: &[u8], enc: u8, out: &mut Vec<u
 }
 
 #[derive(Clone, Debug, PartialEq)]
-enum Got {
+pub enum Got {
     Err(&'static str),
     Version,
     Register { ch: [u8; 32], app: [u8; 32], inside: bool },
@@ -149,7 +149,7 @@ fn observe(r: Result<ctap1::Request, Status>, lo: usize, hi: usize) -> Got {
     }
 }
 
-fn via_view(apdu: &[u8]) -> Got {
+pub fn via_view(apdu: &[u8]) -> Got {
     match CommandView::try_from(apdu) {
         Err(_) => Got::NotAnApdu,
         Ok(v) => {
@@ -159,7 +159,7 @@ fn via_view(apdu: &[u8]) -> Got {
     }
 }
 
-fn via_command<const S: usize>(apdu: &[u8]) -> Got {
+pub fn via_command<const S: usize>(apdu: &[u8]) -> Got {
     match iso7816::Command::<S>::try_from(apdu) {
         Err(_) => Got::NotAnApdu,
         Ok(c) => {
